@@ -9,9 +9,28 @@ namespace Statime
 theorem applyParent_dflt (s s1 : InstState) (a : Ann) (h : s.applyParent a = .ok s1) :
     s1.dflt = s.dflt ∧ s1.pathEnable = s.pathEnable := by
   unfold InstState.applyParent at h
+  simp only [Except.ok.injEq] at h; rw [← h]; exact ⟨rfl, rfl⟩
+
+theorem applyParentS1_dflt (s s1 : InstState) (a : Ann) (h : s.applyParentS1 a = .ok s1) :
+    s1.dflt = s.dflt ∧ s1.pathEnable = s.pathEnable := by
+  unfold InstState.applyParentS1 at h
   split at h
   · cases h
   · simp only [Except.ok.injEq] at h; rw [← h]; exact ⟨rfl, rfl⟩
+
+/-- the state after a BMCA decision: as before, or not Slave, or Slave with nothing measured yet -/
+def FreshOrSame (st st' : PState) : Prop :=
+  st' = st ∨ st'.isSlave = false ∨ ∃ r, st' = .slave r .empty .empty none
+
+theorem portMove_fresh (p : Port) (r : Recommended) (d : DefaultDS) (st : PState) (pd : Option (List Out))
+    (h : portMove p r d = some (st, pd)) : FreshOrSame p.st st := by
+  cases r <;> cases hst : p.st <;> cases hso : d.slaveOnly <;> cases hmp : p.multiportDisable <;>
+    simp [portMove, hst, hso, hmp] at h <;>
+    (try (obtain ⟨rfl, rfl⟩ := h)) <;>
+    (try (obtain ⟨_, rfl, rfl⟩ := h)) <;>
+    first
+    | exact Or.inr (Or.inl rfl)
+    | exact Or.inr (Or.inr ⟨_, rfl⟩)
 
 /-- only S1 makes a port Slave; only an M decision on a non-slave-only instance makes it Master -/
 theorem portMove_spec (p : Port) (r : Recommended) (d : DefaultDS) (st : PState) (pd : Option (List Out))
@@ -42,7 +61,7 @@ theorem setRecommendedPortState_spec (p p1 : Port) (r : Recommended) (d : Defaul
     (p1.st = .master → p.st = .master ∨ (d.slaveOnly = false ∧ r.isS1 = false)) ∧
     (∀ o ∈ e, o.plain) ∧ (∀ l, pd = some l → ∀ o ∈ l, o.plain) ∧
     (p.st = .faulty → p1.st = .faulty) ∧ (r.isS1 = true → p.cfg.masterOnly = false) ∧
-    (d.slaveOnly = true → p1.st ≠ .master) ∧ p1.seqs = p.seqs := by
+    (d.slaveOnly = true → p1.st ≠ .master) ∧ p1.inert = p.inert := by
   unfold Port.setRecommendedPortState at h
   split at h
   · cases h
@@ -78,7 +97,7 @@ theorem setRecommendedState_spec (p p1 : Port) (r : Recommended) (s s1 : InstSta
     (p1.st = .master → p.st = .master ∨ (s.dflt.slaveOnly = false ∧ r.isS1 = false)) ∧
     (∀ o ∈ e, o.plain) ∧ (∀ l, pd = some l → ∀ o ∈ l, o.plain) ∧
     (p.st = .faulty → p1.st = .faulty) ∧ (r.isS1 = true → p.cfg.masterOnly = false) ∧
-    (s.dflt.slaveOnly = true → p1.st ≠ .master) ∧ p1.seqs = p.seqs := by
+    (s.dflt.slaveOnly = true → p1.st ≠ .master) ∧ p1.inert = p.inert := by
   unfold Port.setRecommendedState at h
   simp only [bind, Except.bind] at h
   cases hps : p.setRecommendedPortState r s.dflt with
@@ -90,13 +109,10 @@ theorem setRecommendedState_spec (p p1 : Port) (r : Recommended) (s s1 : InstSta
     obtain ⟨b1, b2, b3, b4, b5, b6, b7, b8, b9, b10, b11, b12⟩ := setRecommendedPortState_spec p pp r s.dflt ev pend hps
     cases r with
     | m1 dd | m2 dd =>
-      simp only at h
-      split at h
-      · cases h
-      · simp only [Except.ok.injEq, Prod.mk.injEq] at h
-        obtain ⟨e1, e2, e3, e4⟩ := h
-        subst e1 e2 e3 e4
-        exact ⟨b1, b2, b3, b4, rfl, b5, b6, b7, b8, b9, b10, b11, b12⟩
+      simp only [Except.ok.injEq, Prod.mk.injEq] at h
+      obtain ⟨e1, e2, e3, e4⟩ := h
+      subst e1 e2 e3 e4
+      exact ⟨b1, b2, b3, b4, rfl, b5, b6, b7, b8, b9, b10, b11, b12⟩
     | m3 aa | p1 aa | p2 aa =>
       simp only [Except.ok.injEq, Prod.mk.injEq] at h
       obtain ⟨e1, e2, e3, e4⟩ := h
@@ -104,14 +120,14 @@ theorem setRecommendedState_spec (p p1 : Port) (r : Recommended) (s s1 : InstSta
       exact ⟨b1, b2, b3, b4, rfl, b5, b6, b7, b8, b9, b10, b11, b12⟩
     | s1 a =>
       simp only at h
-      cases hap : s.applyParent a with
+      cases hap : s.applyParentS1 a with
       | error er => rw [hap] at h; cases h
       | ok s2 =>
         rw [hap] at h
         simp only [Except.ok.injEq, Prod.mk.injEq] at h
         obtain ⟨e1, e2, e3, e4⟩ := h
         subst e1 e2 e3 e4
-        refine ⟨b1, b2, b3, b4, (applyParent_dflt s s2 a hap).1, b5, b6, ?_, b8, b9, b10, b11, b12⟩
+        refine ⟨b1, b2, b3, b4, (applyParentS1_dflt s s2 a hap).1, b5, b6, ?_, b8, b9, b10, b11, b12⟩
         intro o ho
         rcases List.mem_append.1 ho with hh | hh
         · exact b7 o hh
@@ -123,7 +139,7 @@ namespace Statime
 
 /-- everything about a port that the BMCA bookkeeping loops leave alone -/
 def SameRole (p p' : Port) : Prop :=
-  p'.id = p.id ∧ p'.cfg = p.cfg ∧ p'.st = p.st ∧ p'.fml.own = p.fml.own ∧ p'.seqs = p.seqs
+  p'.id = p.id ∧ p'.cfg = p.cfg ∧ p'.st = p.st ∧ p'.fml.own = p.fml.own ∧ p'.inert = p.inert
 
 theorem sameRole_refl (p : Port) : SameRole p p := ⟨rfl, rfl, rfl, rfl, rfl⟩
 theorem sameRole_trans {a b c : Port} (h1 : SameRole a b) (h2 : SameRole b c) : SameRole a c :=
@@ -248,7 +264,7 @@ def AppliedTo (dflt : DefaultDS) (ebest : Option Best) (lbs : List (Nat × Optio
     ∨ (j + 1 ∉ order ∧ p'.st = p.st)) ∧
   (p'.st = .master → p.st = .master ∨ dflt.slaveOnly = false) ∧
   (j + 1 ∈ order → dflt.slaveOnly = true → p'.st ≠ .master) ∧
-  (j + 1 ∉ order → p'.st = p.st) ∧ p'.seqs = p.seqs
+  (j + 1 ∉ order → p'.st = p.st) ∧ p'.inert = p.inert
 
 theorem recommend_none_listening (own : DefaultDS) (e er : Option Best) (l : Bool)
     (h : recommend own e er l = none) : l = true := by
@@ -420,5 +436,94 @@ theorem addPort_ok (i i' : Inst) (cfg : PortCfg) (obs : Obs) (q : Nat)
   rw [Prod.mk.injEq, Prod.mk.injEq] at he
   rw [← he.1, ← he.2.1]
   exact ⟨rfl, rfl, rfl, rfl, rfl⟩
+
+theorem freshOrSame_trans {a b c : PState} (h1 : FreshOrSame a b) (h2 : FreshOrSame b c) : FreshOrSame a c := by
+  rcases h2 with h | h | h
+  · rw [h]; exact h1
+  · exact Or.inr (Or.inl h)
+  · exact Or.inr (Or.inr h)
+
+theorem setRecommendedState_fresh (p p1 : Port) (r : Recommended) (s s1 : InstState) (e : List Out) (pd : Option (List Out))
+    (h : p.setRecommendedState r s = .ok (p1, s1, e, pd)) : FreshOrSame p.st p1.st := by
+  unfold Port.setRecommendedState at h
+  simp only [bind, Except.bind] at h
+  cases hps : p.setRecommendedPortState r s.dflt with
+  | error er => rw [hps] at h; cases h
+  | ok v =>
+    obtain ⟨pp, ev, pend⟩ := v
+    rw [hps] at h
+    simp only at h
+    have hpp : FreshOrSame p.st pp.st := by
+      unfold Port.setRecommendedPortState at hps
+      split at hps
+      · cases hps
+      · cases hm : portMove p r s.dflt with
+        | none =>
+          rw [hm] at hps
+          simp only [Except.ok.injEq, Prod.mk.injEq] at hps
+          rw [← hps.1]; exact Or.inl rfl
+        | some v2 =>
+          obtain ⟨st, pd'⟩ := v2
+          rw [hm] at hps
+          simp only [Except.ok.injEq, Prod.mk.injEq] at hps
+          rw [← hps.1]; exact portMove_fresh p r s.dflt st pd' hm
+    cases r with
+    | m1 dd | m2 dd | m3 dd | p1 dd | p2 dd =>
+      simp only [Except.ok.injEq, Prod.mk.injEq] at h
+      rw [← h.1]; exact hpp
+    | s1 a =>
+      simp only at h
+      cases hap : s.applyParentS1 a with
+      | error er => rw [hap] at h; cases h
+      | ok s2 =>
+        rw [hap] at h
+        simp only [Except.ok.injEq, Prod.mk.injEq] at h
+        rw [← h.1]; exact hpp
+
+theorem bmcaApply_fresh (ebest : Option Best) (lbs : List (Nat × Option Best)) :
+    ∀ (order : List Nat) (ports : List Port) (s : InstState) (ev : Obs) (pend : List (Nat × List Out))
+      (ports' : List Port) (s' : InstState) (ev' : Obs) (pend' : List (Nat × List Out)),
+      bmcaApply ebest lbs order ports s ev pend = .ok (ports', s', ev', pend') →
+      ∀ (j : Nat) (p : Port), ports[j]? = some p → ∃ p', ports'[j]? = some p' ∧ FreshOrSame p.st p'.st := by
+  intro order
+  induction order with
+  | nil =>
+    intro ports s ev pend ports' s' ev' pend' h
+    simp only [bmcaApply, Except.ok.injEq, Prod.mk.injEq] at h
+    obtain ⟨rfl, _⟩ := h
+    exact fun j p hp => ⟨p, hp, Or.inl rfl⟩
+  | cons k rest ih =>
+    intro ports s ev pend ports' s' ev' pend' h
+    simp only [bmcaApply] at h
+    cases hk : portAt ports k with
+    | none => rw [hk] at h; exact ih ports s ev pend ports' s' ev' pend' h
+    | some p0 =>
+      rw [hk] at h
+      simp only at h
+      obtain ⟨k1, hkl, hkg⟩ := portAt_some hk
+      cases hrec : recommend s.dflt ebest ((lbs.lookup k).getD none) (decide (p0.st = .listening)) with
+      | none => rw [hrec] at h; exact ih ports s ev pend ports' s' ev' pend' h
+      | some r =>
+        rw [hrec] at h
+        simp only [bind, Except.bind] at h
+        cases hset : p0.setRecommendedState r s with
+        | error er => rw [hset] at h; cases h
+        | ok v =>
+          obtain ⟨p1, s1, e1, pd1⟩ := v
+          rw [hset] at h
+          simp only at h
+          have hf := setRecommendedState_fresh p0 p1 r s s1 e1 pd1 hset
+          have a := ih (setPort ports k p1) s1 _ _ ports' s' ev' pend' h
+          intro j p hp
+          have hg := getElem?_setPort ports k p1 j k1 hkl
+          by_cases hjk : j + 1 = k
+          · have hj : j = k - 1 := by omega
+            have hpe : p = p0 := by rw [hj, hkg] at hp; cases hp; rfl
+            subst hpe
+            rw [if_pos hjk] at hg
+            obtain ⟨p', hp', hfo⟩ := a j p1 hg
+            exact ⟨p', hp', freshOrSame_trans hf hfo⟩
+          · rw [if_neg hjk] at hg
+            exact a j p (by rw [hg]; exact hp)
 
 end Statime
